@@ -395,3 +395,104 @@ def origin(model, fi, expr, at, depth=0):
       out |= origin(model, fi, v, at, depth + 1)
     return out
   return {'unknown'}
+
+
+# ---------------------------------------------------------------- expansion
+class _Subst(ast.NodeTransformer):
+
+  def __init__(self, fi, at, depth, bound):
+    self.fi = fi
+    self.at = at
+    self.depth = depth
+    self.bound = set(bound)
+
+  def visit_Name(self, n):
+    if not isinstance(n.ctx, ast.Load) or n.id in self.bound or self.depth <= 0:
+      return n
+    ds = rdefs(self.fi.node).reaching(self.at, n.id)
+    if not ds or len(ds) != 1 or isinstance(ds[0], tuple):
+      return n
+    d = ds[0]
+    if any(isinstance(x, (ast.Yield, ast.Await)) for x in ast.walk(d)):
+      return n
+    sub = _Subst(self.fi, d, self.depth - 1, self.bound)
+    import copy
+    return sub.visit(copy.deepcopy(d))
+
+  def _comp(self, n):
+    import copy
+    n = copy.deepcopy(n)
+    # canonical names for comprehension variables
+    names = []
+    for g in n.generators:
+      for x in ast.walk(g.target):
+        if isinstance(x, ast.Name):
+          names.append(x.id)
+    ren = {nm: '_c%d' % i for i, nm in enumerate(dict.fromkeys(names))}
+    first = True
+    inner = _Subst(self.fi, self.at, self.depth, self.bound | set(ren.values()))
+    for g in n.generators:
+      g.iter = (self if first else inner).visit(_ren(g.iter, ren if not first else {}))
+      first = False
+      g.target = _ren(g.target, ren)
+      g.ifs = [inner.visit(_ren(i, ren)) for i in g.ifs]
+    if isinstance(n, ast.DictComp):
+      n.key = inner.visit(_ren(n.key, ren))
+      n.value = inner.visit(_ren(n.value, ren))
+    else:
+      n.elt = inner.visit(_ren(n.elt, ren))
+    return n
+
+  def visit_ListComp(self, n):
+    return self._comp(n)
+
+  def visit_SetComp(self, n):
+    return self._comp(n)
+
+  def visit_GeneratorExp(self, n):
+    return self._comp(n)
+
+  def visit_DictComp(self, n):
+    return self._comp(n)
+
+  def visit_Lambda(self, n):
+    import copy
+    n = copy.deepcopy(n)
+    ps = [a.arg for a in n.args.args]
+    ren = {p: '_l%d' % i for i, p in enumerate(ps)}
+    for a in n.args.args:
+      a.arg = ren[a.arg]
+    inner = _Subst(self.fi, self.at, self.depth, self.bound | set(ren.values()))
+    n.body = inner.visit(_ren(n.body, ren))
+    return n
+
+
+class _Ren(ast.NodeTransformer):
+
+  def __init__(self, ren):
+    self.ren = ren
+
+  def visit_Name(self, n):
+    if n.id in self.ren:
+      return ast.copy_location(ast.Name(self.ren[n.id], n.ctx), n)
+    return n
+
+
+def _ren(node, ren):
+  if not ren:
+    return node
+  import copy
+  return _Ren(ren).visit(copy.deepcopy(node))
+
+
+def expand(fi, expr, at=None, depth=6):
+  """expr with every local name replaced by its (unique) reaching definition,
+  recursively; comprehension / lambda variables canonicalised.  Independent of
+  the names chosen for locals."""
+  import copy
+  return _Subst(fi, at if at is not None else expr, depth, ()).visit(
+      copy.deepcopy(expr))
+
+
+def xnorm(fi, expr, at=None, depth=6):
+  return ast.unparse(expand(fi, expr, at, depth))
